@@ -407,6 +407,9 @@ func (x *Exec) complete(t *model.TypeRef, v interface{}, f *model.Field, path []
 	if v == nil {
 		return nil
 	}
+	if _, isTN := v.(model.TypedNil); isTN {
+		return nil
+	}
 	if t.NonNull {
 		return x.complete(t.Of, v, f, path, nth)
 	}
